@@ -58,7 +58,7 @@ PROPS = {
         "level": "proof",
     },
     "C20": {
-        "vx": ["dse_coalesce"],
+        "vx": ["dse_coalesce", "dse_guard", "traversal"],
         "kl": ["dse_delete_entries"],
         "level": "proof",
     },
